@@ -709,8 +709,28 @@ type Coord3 = (u8, u32, u32);
 /// coordinate).  Returns the model answer.
 #[allow(clippy::too_many_arguments)]
 fn convert_and_check(out: &mut Out, rt: &tokio::runtime::Runtime, line: &str, kind: &str, reader: Box<dyn TilesReaderTrait>, cp: TilesConverterParameters, path: &Path, expected: &BTreeMap<Coord3, Vec<u8>>, expected_declared: TileCompression, nontrivial: bool) -> String {
+	convert_and_check_named(out, rt, line, kind, reader, cp, path, expected, expected_declared, nontrivial, &["verif \u{e4} name", "indep"])
+}
+
+/// `names`: acceptable values of the `name` key of the metadata read back
+#[allow(clippy::too_many_arguments)]
+fn convert_and_check_named(out: &mut Out, rt: &tokio::runtime::Runtime, line: &str, kind: &str, reader: Box<dyn TilesReaderTrait>, cp: TilesConverterParameters, path: &Path, expected: &BTreeMap<Coord3, Vec<u8>>, expected_declared: TileCompression, nontrivial: bool, names: &[&str]) -> String {
 	let fmt_of_line = line.split(' ').nth(3).unwrap_or("-").to_string();
-	let sig = |k: &str| json!({"kind": k, "world": kind, "fmt": fmt_of_line});
+	let variant = line.split(' ').nth(7).unwrap_or("-").to_string();
+	let sig = |k: &str| {
+		if kind == "twice" {
+			// a second conversion into the same target: its own failure kind (must not be swallowed by the known
+			// finding about leftovers of OTHER names in a directory)
+			let what = match k {
+				"world_lookup_payload" | "world_stream_payload" => "stale_same_name",
+				"world_meta" => "stale_metadata",
+				other => other,
+			};
+			json!({"kind": "existing_output", "what": what, "fmt": fmt_of_line, "variant": variant})
+		} else {
+			json!({"kind": k, "world": kind, "fmt": fmt_of_line})
+		}
+	};
 	let path_s = path.to_str().unwrap().to_string();
 	let r = catch(|| rt.block_on(convert_tiles_container(reader, cp, &path_s)));
 	match r {
@@ -757,8 +777,15 @@ fn convert_and_check(out: &mut Out, rt: &tokio::runtime::Runtime, line: &str, ki
 					out.oracle(bad.is_empty(), "C04 world payload (lookup)", sig("world_lookup_payload"), json!({"case": line, "first_bad": bad, "checked": lookups.len()}));
 					let exp_walked: Vec<(&Coord3, &Vec<u8>)> = expected.iter().filter(|(c, _)| walked.contains(&c.0)).collect();
 					let bad_s: Vec<String> = exp_walked.iter().filter(|(c, p)| streamed.get(*c).and_then(|b| indep_dec(declared, b)).as_ref() != Some(*p)).take(5).map(|(c, _)| format!("{}/{}/{}", c.0, c.1, c.2)).collect();
-					out.oracle(bad_s.is_empty() && streamed.len() == exp_walked.len(), "C04 world payload (stream)", sig("world_stream_payload"), json!({"case": line, "first_bad": bad_s, "streamed": streamed.len(), "expected": exp_walked.len()}));
-					out.oracle(name.as_deref() == Some("verif \u{e4} name") || name.as_deref() == Some("indep"), "C04 world metadata", sig("world_meta"), json!({"case": line, "name": name}));
+					// a directory keeps the files of an earlier conversion whose names are not written again (known finding
+					// C04-directory-stale-files): reported with its own signature, the payload oracle looks at the expected names
+					let leftovers = kind == "twice" && fmt_of_line == "directory" && bad_s.is_empty() && streamed.len() > exp_walked.len();
+					if leftovers {
+						out.oracle(false, "C04 existing output: leftovers of the earlier conversion", json!({"kind":"existing_output","what":"leftover_tiles","fmt":"directory"}), json!({"case": line, "streamed": streamed.len(), "expected": exp_walked.len()}));
+					} else {
+						out.oracle(bad_s.is_empty() && streamed.len() == exp_walked.len(), "C04 world payload (stream)", sig("world_stream_payload"), json!({"case": line, "first_bad": bad_s, "streamed": streamed.len(), "expected": exp_walked.len()}));
+					}
+					out.oracle(name.as_deref().is_some_and(|n| names.contains(&n)), "C04 world metadata", sig("world_meta"), json!({"case": line, "name": name, "want": names}));
 					for c in expected.keys() {
 						out.eval(&format!("{line} {c:?}"), nontrivial);
 					}
@@ -872,6 +899,41 @@ fn world_case(out: &mut Out, args: &Args, rt: &tokio::runtime::Runtime, kind: &s
 			let cp = TilesConverterParameters::new(t, None, f, false, false);
 			let expected: BTreeMap<Coord3, Vec<u8>> = world.into_iter().collect();
 			convert_and_check(out, rt, &line, kind, reader.boxed(), cp, &path, &expected, declared, true)
+		}
+		// class 5, second half: the target holds the output of an EARLIER CONVERSION with the same format and target
+		// compression – same file names, possibly the same lengths (seeded regression C04-10: "don't rewrite a file of the
+		// same length").  a = 1: same coordinates, same lengths, one byte per tile differs, metadata of equal length;
+		// a = 2: same coordinates, other lengths; a = 3: the second world is a subset; a = 4: identical content
+		"twice" => {
+			let world_a = small_world();
+			let world_b: Vec<(Coord3, Vec<u8>)> = match a {
+				1 => world_a.iter().map(|(c, p)| (*c, { let mut q = p.clone(); let n = q.len(); q[n - 1] ^= 0xff; q })).collect(),
+				2 => world_a.iter().map(|(c, p)| (*c, { let mut q = p.clone(); q.extend_from_slice(b" (second edition)"); q })).collect(),
+				3 => world_a.iter().step_by(2).map(|(c, p)| (*c, { let mut q = p.clone(); q[0] ^= 0x55; q })).collect(),
+				_ => world_a.clone(),
+			};
+			let name_b = match a {
+				1 | 3 => "verif \u{f6} name", // same length as the first name
+				2 => "verif \u{e4} name, second edition",
+				_ => "verif \u{e4} name",
+			};
+			let tj_b = {
+				let mut t2 = tj.clone();
+				t2.set_string("name", name_b).unwrap();
+				t2
+			};
+			let enc = |w: &Vec<(Coord3, Vec<u8>)>| -> Vec<(Coord3, Vec<u8>)> { w.iter().map(|(c, p)| (*c, indep_enc(s, p))).collect() };
+			// first conversion
+			let r0 = MemReader::new(TileFormat::PBF, s, tj.clone(), &enc(&world_a));
+			let first = catch(|| rt.block_on(convert_tiles_container(r0.boxed(), TilesConverterParameters::new(t, None, f, false, false), path.to_str().unwrap())));
+			if !matches!(first, Ok(Ok(()))) {
+				out.oracle(false, "C04 existing output: first conversion failed", json!({"kind":"existing_output","what":"first_failed","fmt":fmt}), json!({"case": line}));
+			}
+			// second conversion into the same target
+			let reader = MemReader::new(TileFormat::PBF, s, tj_b, &enc(&world_b));
+			let cp = TilesConverterParameters::new(t, None, f, false, false);
+			let expected: BTreeMap<Coord3, Vec<u8>> = world_b.into_iter().collect();
+			convert_and_check_named(out, rt, &line, kind, reader.boxed(), cp, &path, &expected, declared, true, &[name_b])
 		}
 		// class 8: zoom 0 and the far corner of zoom 30 / 31
 		"z31" => {
@@ -1352,6 +1414,17 @@ pub fn run(args: &Args) {
 			}
 			world_case(&mut out, args, &rt, "fault", fmt, Gzip, None, false, 0, 0, 0);
 		}
+		for fmt in ["directory", "versatiles", "pmtiles", "tar", "mbtiles"] {
+			for a in 1u8..=4 {
+				// equal-length outputs need an uncompressed target (mbtiles: gzip is the only vector target)
+				if fmt != "mbtiles" {
+					world_case(&mut out, args, &rt, "twice", fmt, Gzip, Some(Uncompressed), false, a, 0, 0);
+				}
+				if fmt == "mbtiles" || fmt == "directory" || args.thorough() {
+					world_case(&mut out, args, &rt, "twice", fmt, Uncompressed, Some(Gzip), false, a, 0, 0);
+				}
+			}
+		}
 		for a in [0u8, 1] {
 			for bb in [0u8, 1] {
 				world_case(&mut out, args, &rt, "indep", "versatiles", Gzip, Some(Brotli), false, a, bb, 0);
@@ -1382,7 +1455,7 @@ pub fn run(args: &Args) {
 		"checklist 2 (faults): undecodable source tile (world fault: must fail when recoding is needed, byte-identical pass-through otherwise); empty / truncated blobs in proc/rec",
 		"checklist 3 (payloads): 0 and 1 byte, duplicates within and across blocks, 70 KiB / 200 KiB, undecodable, payloads that are valid streams of another codec",
 		"checklist 4 (options): target x force x flip_y x swap_xy x bbox (world opts); override_compression is exercised by C05/C06",
-		"checklist 5 (state): output file exists and is longer (garbage / earlier container), non-empty directory (known finding), converter object reused, same blob through different pipelines back to back on one thread, one-tile conversions back to back on a current-thread runtime",
+		"checklist 5 (state): output file exists and is longer (garbage / earlier container), non-empty directory (known finding), a second conversion into the same target with the same names (same lengths + other bytes, other lengths, subset, identical) for all five formats, converter object reused, same blob through different pipelines back to back on one thread, one-tile conversions back to back on a current-thread runtime",
 		"checklist 6 (order): oracles are keyed by coordinate; small and 200 KiB tiles share a stream; scheduling itself is C14",
 		"checklist 7 (HTTP): n.a. (no request surface)",
 		"checklist 8 (coordinates): zoom 0, 30, 31 far corner (world z31), block border",
